@@ -422,7 +422,127 @@ def emit_constants(repo):
     return 'Constants.lean', '\n'.join(lines) + '\n', out
 
 
-EMITTERS = [emit_codon, emit_constants]
+# ------------------------------------------------------------ label constants
+def lean_chars(s):
+    def ch(c):
+        if c == "'":
+            return "'\\''"
+        if c == '\\':
+            return "'\\\\'"
+        if not (32 <= ord(c) < 127):
+            raise TranslationError(f'non printable-ASCII character in constant {s!r}')
+        return f"'{c}'"
+    return '[' + ', '.join(ch(c) for c in s) + ']'
+
+
+def emit_labels(repo):
+    """Header-grammar and source constants used by C18/C19:
+    constant.VariantPrefix (+ ctbv / alt_translation), the alt_splice_types list in
+    BaseVariantPeptideIdentifier.is_alternative_splicing, delimiters, internal
+    sources, MUTUALLY_EXCLUSIVE_PARSERS."""
+    cpath = os.path.join(repo, 'moPepGen', 'constant.py')
+    ipath = os.path.join(repo, 'moPepGen', '__init__.py')
+    vpath = os.path.join(repo, 'moPepGen', 'aa', 'VariantPeptideIdentifier.py')
+    spath = os.path.join(repo, 'moPepGen', 'aa', 'PeptidePoolSummarizer.py')
+    consts, ctree = module_assignments(cpath)
+    members, methods = {}, {}
+    for node in ctree.body:
+        if isinstance(node, ast.ClassDef) and node.name == 'VariantPrefix':
+            for b in node.body:
+                if isinstance(b, ast.Assign) and isinstance(b.targets[0], ast.Name):
+                    members[b.targets[0].id] = literal(b.value)
+                elif isinstance(b, ast.FunctionDef) and b.name in ('ctbv', 'ntbv', 'alt_translation'):
+                    ret = [x for x in b.body if isinstance(x, ast.Return)]
+                    if len(ret) != 1 or not isinstance(ret[0].value, ast.List):
+                        raise TranslationError(f'VariantPrefix.{b.name}: not a list return')
+                    names = []
+                    for el in ret[0].value.elts:
+                        if not (isinstance(el, ast.Attribute) and isinstance(el.value, ast.Name)
+                                and el.value.id == 'cls'):
+                            raise TranslationError(f'VariantPrefix.{b.name}: element not cls.X')
+                        names.append(el.attr)
+                    methods[b.name] = names
+    for k in ('FUSION', 'CIRC', 'CI'):
+        if k not in members:
+            raise TranslationError(f'VariantPrefix.{k} missing')
+    for k in ('ctbv', 'alt_translation'):
+        if k not in methods:
+            raise TranslationError(f'VariantPrefix.{k} missing')
+    for nm in methods['ctbv'] + methods['alt_translation']:
+        if nm not in members:
+            raise TranslationError(f'VariantPrefix.{nm} missing')
+    ctbv = [members[n] for n in methods['ctbv']]
+    altt = [members[n] for n in methods['alt_translation']]
+    # alt_splice_types
+    with open(vpath, encoding='utf-8') as fh:
+        vtree = ast.parse(fh.read())
+    splice = None
+    for node in ast.walk(vtree):
+        if isinstance(node, ast.FunctionDef) and node.name == 'is_alternative_splicing':
+            for b in node.body:
+                if isinstance(b, ast.Assign) and isinstance(b.targets[0], ast.Name) \
+                        and b.targets[0].id == 'alt_splice_types':
+                    splice = literal(b.value)
+    if splice is None:
+        raise TranslationError('alt_splice_types not found')
+    iconsts, _ = module_assignments(ipath)
+    delim = literal(iconsts['VARIANT_PEPTIDE_SOURCE_DELIMITER'])
+    keysep = literal(iconsts['SPLIT_DATABASE_KEY_SEPARATER'])
+    if delim != ' ' or keysep != '-':
+        raise TranslationError('delimiters changed: the line protocol assumes " " and "-"')
+    src_novel = literal(consts['SOURCE_NOVEL_ORF'])
+    src_codon = literal(consts['SOURCE_CODON_REASSIGNMENT'])
+    src_sect = literal(consts['SOURCE_SEC_TERMINATION'])
+    sect_type = literal(consts['SEC_TERMINATION_TYPE'])
+    codon_types = literal(consts['CODON_REASSIGNMENTS_TYPES'])
+    sconsts, _ = module_assignments(spath)
+    excl = literal(sconsts['MUTUALLY_EXCLUSIVE_PARSERS'])
+    si = sconsts['SOURCES_INTERNAL']
+    if not isinstance(si, ast.List):
+        raise TranslationError('SOURCES_INTERNAL not a list')
+    internal = []
+    for el in si.elts:
+        if not (isinstance(el, ast.Attribute) and el.attr in consts):
+            raise TranslationError('SOURCES_INTERNAL element not constant.X')
+        internal.append(literal(consts[el.attr]))
+    L = lambda xs: '[' + ', '.join(lean_chars(x) for x in xs) + ']'
+    S = lambda xs: '[' + ', '.join(lean_str(x) for x in xs) + ']'
+    lines = [
+        '-- GENERATED by translator/gen_tables.py from moPepGen/constant.py, __init__.py,',
+        '-- aa/VariantPeptideIdentifier.py, aa/PeptidePoolSummarizer.py.  Do not edit.',
+        'namespace MoPepGen.Generated',
+        '',
+        f'def pfxFusion : List Char := {lean_chars(members["FUSION"])}',
+        f'def pfxCirc : List Char := {lean_chars(members["CIRC"])}',
+        f'def pfxCi : List Char := {lean_chars(members["CI"])}',
+        '/-- VariantPrefix.ctbv() -/',
+        f'def pfxCtbv : List (List Char) := {L(ctbv)}',
+        '/-- VariantPrefix.alt_translation() -/',
+        f'def pfxAltTranslation : List (List Char) := {L(altt)}',
+        '/-- alt_splice_types in BaseVariantPeptideIdentifier.is_alternative_splicing -/',
+        f'def altSpliceTypes : List (List Char) := {L(splice)}',
+        f'def sourceNovelOrf : String := {lean_str(src_novel)}',
+        f'def sourceCodonReassign : String := {lean_str(src_codon)}',
+        f'def sourceSecTermination : String := {lean_str(src_sect)}',
+        f'def secTerminationType : List Char := {lean_chars(sect_type)}',
+        f'def codonReassignTypes : List (List Char) := {L(codon_types)}',
+        '/-- SOURCES_INTERNAL (PeptidePoolSummarizer) -/',
+        f'def sourcesInternal : List String := {S(internal)}',
+        '/-- MUTUALLY_EXCLUSIVE_PARSERS -/',
+        'def mutuallyExclusiveParsers : List (String × List String) := [',
+        ',\n'.join(f'  ({lean_str(k)}, {S(v)})' for k, v in excl.items()),
+        ']',
+        '',
+        'end MoPepGen.Generated',
+    ]
+    meta = {'members': members, 'ctbv': ctbv, 'alt_translation': altt, 'alt_splice_types': splice,
+            'internal': internal, 'exclusive': excl,
+            'sources': [src_novel, src_codon, src_sect], 'sect_type': sect_type,
+            'codon_types': codon_types}
+    return 'Labels.lean', '\n'.join(lines) + '\n', meta
+
+
+EMITTERS = [emit_codon, emit_constants, emit_labels]
 
 
 def main():
